@@ -1533,34 +1533,234 @@ func ruleCursorCarry(c *Ctx) {
 				}
 			}
 		}
+		// must-analysis: on every path that took the cursor branch and reaches the request literal, the
+		// local feeding field F was last assigned from <cursor>.Next.F (paths without a cursor are vacuous)
 		var missing []string
-		for i := 0; i < st.NumFields(); i++ {
-			f := st.Field(i).Name()
-			l := localOf[f]
-			if l == nil {
-				missing = append(missing, f+" (not built from a local)")
-				continue
+		var curPar types.Object
+		for _, p := range fd.Type.Params.List {
+			for _, nm := range p.Names {
+				if nm.Name == "cursor" {
+					curPar = info.Defs[nm]
+				}
 			}
-			carried := false
+		}
+		if curPar == nil {
+			c.und(key, fd.Pos(), "no cursor parameter")
+			continue
+		}
+		var allFacts []string
+		for i := 0; i < st.NumFields(); i++ {
+			allFacts = append(allFacts, st.Field(i).Name())
+		}
+		carries := func(as *ast.AssignStmt) (string, bool) {
+			if len(as.Lhs) != 1 || len(as.Rhs) != 1 {
+				return "", false
+			}
+			se, ok := ast.Unparen(as.Rhs[0]).(*ast.SelectorExpr)
+			if !ok {
+				return "", false
+			}
+			// <decoded>.Next.F, or <next>.F where <next> is what a helper decoded from the cursor
+			base := ast.Unparen(se.X)
+			if inner, ok := base.(*ast.SelectorExpr); ok && inner.Sel.Name == "Next" {
+				base = ast.Unparen(inner.X)
+			}
+			root, ok := base.(*ast.Ident)
+			if !ok {
+				return "", false
+			}
+			rv, ok := info.Uses[root].(*types.Var)
+			if !ok {
+				return "", false
+			}
+			decoded := false
 			ast.Inspect(fd.Body, func(n ast.Node) bool {
-				as, ok := n.(*ast.AssignStmt)
-				if !ok || len(as.Lhs) != 1 || len(as.Rhs) != 1 || !isObj(info, as.Lhs[0], l) {
+				d, ok := n.(*ast.AssignStmt)
+				if !ok || len(d.Rhs) != 1 {
 					return true
 				}
-				if se, ok := ast.Unparen(as.Rhs[0]).(*ast.SelectorExpr); ok && se.Sel.Name == f {
-					if inner, ok := ast.Unparen(se.X).(*ast.SelectorExpr); ok && inner.Sel.Name == "Next" {
-						// governed by the cursor test
-						for _, a := range enclosing(fd.Body, as) {
-							if ifs, ok := a.(*ast.IfStmt); ok && strings.Contains(exprString(ifs.Cond), "cursor") && containsNode(ifs.Body, as) {
-								carried = true
+				call, ok := ast.Unparen(d.Rhs[0]).(*ast.CallExpr)
+				if !ok {
+					return true
+				}
+				for _, l := range d.Lhs {
+					if lid, ok := l.(*ast.Ident); ok && (info.Defs[lid] == rv || info.Uses[lid] == rv) {
+						for _, a := range call.Args {
+							if isObj(info, a, curPar) {
+								decoded = true
 							}
 						}
 					}
 				}
 				return true
 			})
-			if !carried {
-				missing = append(missing, f)
+			if !decoded {
+				return "", false
+			}
+			if l := localOf[se.Sel.Name]; l != nil && isObj(info, as.Lhs[0], l) {
+				return se.Sel.Name, true
+			}
+			return "", false
+		}
+		gen := func(n ast.Node) []string {
+			if as, ok := n.(*ast.AssignStmt); ok {
+				if f, ok := carries(as); ok {
+					return []string{f}
+				}
+			}
+			return nil
+		}
+		kill := func(n ast.Node) []string {
+			as, ok := n.(*ast.AssignStmt)
+			if !ok {
+				return nil
+			}
+			if _, ok := carries(as); ok {
+				return nil
+			}
+			var out []string
+			for _, l := range as.Lhs {
+				for f, obj := range localOf {
+					if obj != nil && isObj(info, l, obj) {
+						out = append(out, f)
+					}
+				}
+			}
+			return out
+		}
+		// the cursor test: `cursor != ""` / `cursor == ""` / len(cursor) compared with 0
+		noCursorEdge := func(b *cfg.Block, i int) []string {
+			if len(b.Succs) != 2 || len(b.Nodes) == 0 {
+				return nil
+			}
+			be, ok := ast.Unparen(b.Nodes[len(b.Nodes)-1].(ast.Expr)).(*ast.BinaryExpr)
+			if !ok {
+				return nil
+			}
+			x := ast.Unparen(be.X)
+			if call, ok := x.(*ast.CallExpr); ok && exprString(call.Fun) == "len" && len(call.Args) == 1 {
+				x = ast.Unparen(call.Args[0])
+			}
+			if !isObj(info, x, curPar) {
+				return nil
+			}
+			emptyOnTrue := false
+			switch be.Op {
+			case token.EQL, token.LEQ:
+				emptyOnTrue = true
+			case token.NEQ, token.GTR:
+			default:
+				return nil
+			}
+			if (emptyOnTrue && i == 0) || (!emptyOnTrue && i == 1) {
+				return allFacts
+			}
+			return nil
+		}
+		safeEdge := func(b *cfg.Block, i int) (out []string) {
+			defer func() {
+				if recover() != nil {
+					out = nil
+				}
+			}()
+			return noCursorEdge(b, i)
+		}
+		g := buildCFG(pk, fd.Body)
+		// kills count only where a path that took the cursor branch can be (the no-cursor branch
+		// computes the same locals from the request, which is not a loss of a carried value)
+		withCursor := map[*cfg.Block]bool{}
+		var work []*cfg.Block
+		for _, b := range g.Blocks {
+			for i := range b.Succs {
+				if safeEdge(b, i) != nil && len(b.Succs) == 2 {
+					work = append(work, b.Succs[1-i])
+				}
+			}
+		}
+		if len(work) == 0 {
+			c.und(key, fd.Pos(), "no test of the cursor parameter found")
+			continue
+		}
+		for len(work) > 0 {
+			b := work[len(work)-1]
+			work = work[:len(work)-1]
+			if withCursor[b] {
+				continue
+			}
+			withCursor[b] = true
+			work = append(work, b.Succs...)
+		}
+		blockOf := map[ast.Node]*cfg.Block{}
+		for _, b := range g.Blocks {
+			for _, nd := range b.Nodes {
+				blockOf[nd] = b
+			}
+		}
+		killAll := kill
+		kill = func(n ast.Node) []string {
+			if !withCursor[blockOf[n]] {
+				return nil
+			}
+			as, ok := n.(*ast.AssignStmt)
+			if !ok {
+				return nil
+			}
+			// normalised by a helper that hands the value back (`tags, limit, err := defaults(id, tags, limit)`)
+			if len(as.Rhs) == 1 {
+				if call, isCall := ast.Unparen(as.Rhs[0]).(*ast.CallExpr); isCall {
+					all := true
+					var lost []string
+					for k, l := range as.Lhs {
+						for f, obj := range localOf {
+							if obj == nil || !isObj(info, l, obj) {
+								continue
+							}
+							through := false
+							for j, a := range call.Args {
+								if isObj(info, a, obj) && passesThrough(pk, call, j, k) {
+									through = true
+								}
+							}
+							if !through {
+								all = false
+								lost = append(lost, f)
+							}
+						}
+					}
+					if all {
+						return nil
+					}
+					return lost
+				}
+			}
+			// a default for the zero value (`if tags == nil { tags = {} }`) is not a loss
+			for _, a := range enclosing(fd.Body, as) {
+				if ifs, ok := a.(*ast.IfStmt); ok && containsNode(ifs.Body, as) && len(as.Lhs) == 1 {
+					if be, ok := ast.Unparen(ifs.Cond).(*ast.BinaryExpr); ok && be.Op == token.EQL && exprString(be.X) == exprString(as.Lhs[0]) {
+						if y := exprString(be.Y); y == "nil" || y == "0" || y == `""` {
+							return nil
+						}
+					}
+				}
+			}
+			return killAll(n)
+		}
+		at := mustFactsK(g, gen, kill, safeEdge, func(n ast.Node) bool { return containsNode(n, lit) })
+		if len(at) == 0 {
+			c.und(key, lit.Pos(), "request literal not found in the control-flow graph")
+			continue
+		}
+		for i := 0; i < st.NumFields(); i++ {
+			f := st.Field(i).Name()
+			if localOf[f] == nil {
+				missing = append(missing, f+" (not built from a local)")
+				continue
+			}
+			for _, facts := range at {
+				if !facts[f] {
+					missing = append(missing, f)
+					break
+				}
 			}
 		}
 		c.check(len(missing) == 0, key, lit.Pos(), "with a cursor, every field of the query is taken from the cursor", "api."+fn+" does not carry "+strings.Join(missing, ", ")+" over from the cursor: the next page is computed for a different query (unfiltered results, or pages that repeat / skip)")
@@ -1695,4 +1895,42 @@ func ruleWorkerEntriesCarryCallback(c *Ctx) {
 	}
 	c.count("worker_completion_entries", n)
 	c.floor("completion entries built by workers", n, 3)
+}
+
+// passesThrough: the callee (a function of the same package) returns its j-th parameter as its k-th
+// result on its value-carrying return (the last statement; earlier returns are error exits), and
+// assigns that parameter only to give it a default where it is found nil / zero.
+func passesThrough(pk *packages.Package, call *ast.CallExpr, j, k int) bool {
+	info := pk.TypesInfo
+	fn, ok := calleeOf(info, call).(*types.Func)
+	if !ok || fn.Pkg() != pk.Types {
+		return false
+	}
+	fd := funcDeclOf(pk, fn)
+	if fd == nil || fd.Body == nil || len(fd.Body.List) == 0 {
+		return false
+	}
+	sig := fn.Type().(*types.Signature)
+	if j >= sig.Params().Len() || k >= sig.Results().Len() {
+		return false
+	}
+	par := sig.Params().At(j)
+	last, ok := fd.Body.List[len(fd.Body.List)-1].(*ast.ReturnStmt)
+	if !ok || k >= len(last.Results) || !isObj(info, last.Results[k], par) {
+		return false
+	}
+	good := true
+	ast.Inspect(fd.Body, func(n ast.Node) bool {
+		as, ok := n.(*ast.AssignStmt)
+		if !ok {
+			return true
+		}
+		for _, l := range as.Lhs {
+			if isObj(info, l, par) && !underZeroTest(fd.Body, as, l) {
+				good = false
+			}
+		}
+		return true
+	})
+	return good
 }
